@@ -5,6 +5,7 @@ package main
 // non-nil-ness).
 
 import (
+	"fmt"
 	"go/constant"
 	"go/types"
 	"sort"
@@ -235,4 +236,166 @@ func (w *World) Globals() []*GlobalInfo {
 	}
 	sort.Slice(out, func(i, j int) bool { return globalName(out[i].G) < globalName(out[j].G) })
 	return out
+}
+
+// BaseMem: constant contents of package-level arrays / slices / structs that
+// are written only by the package initialiser (tables). Keys are abstract
+// locations of the engine ("G:pkg.name|[i].field").
+func (w *World) BaseMem() map[string]AV {
+	if w.baseMem != nil {
+		return w.baseMem
+	}
+	w.baseMem = map[string]AV{}
+	eff := w.Effects()
+	written := map[*ssa.Global]bool{}
+	for fn, ef := range eff {
+		if fn.Synthetic == "package initializer" {
+			continue
+		}
+		for g := range ef.WritesGlobals {
+			written[g] = true
+		}
+	}
+	for _, pkg := range []*ssa.Package{w.Root, w.Enc} {
+		init := pkg.Func("init")
+		if init == nil {
+			continue
+		}
+		// local array literals whose slice is stored into a global
+		sliceOf := map[*ssa.Alloc]*ssa.Global{}
+		for _, b := range init.Blocks {
+			for _, in := range b.Instrs {
+				if st, ok := in.(*ssa.Store); ok {
+					if g, ok := st.Addr.(*ssa.Global); ok {
+						if sl, ok := st.Val.(*ssa.Slice); ok {
+							if al, ok := sl.X.(*ssa.Alloc); ok && sl.Low == nil && sl.High == nil {
+								sliceOf[al] = g
+							}
+						}
+					}
+				}
+			}
+		}
+		for _, b := range init.Blocks {
+			for _, in := range b.Instrs {
+				st, ok := in.(*ssa.Store)
+				if !ok {
+					continue
+				}
+				c, ok := st.Val.(*ssa.Const)
+				if !ok || c.Value == nil {
+					continue
+				}
+				root, sel, ok := constAddrChain(st.Addr)
+				if !ok || sel == "" {
+					continue
+				}
+				switch r := root.(type) {
+				case *ssa.Global:
+					if written[r] || !isAggregate(r.Type().(*types.Pointer).Elem()) || !w.readOnlyOutsideInit(r) {
+						continue
+					}
+					w.baseMem["G:"+globalName(r)+"|"+sel] = constAV(c)
+				case *ssa.Alloc:
+					g := sliceOf[r]
+					if g == nil {
+						continue
+					}
+					if written[g] || !w.readOnlyOutsideInit(g) {
+						continue
+					}
+					loc := allocLoc(r)
+					w.baseMem[loc+"|"+sel] = constAV(c)
+					at := r.Type().Underlying().(*types.Pointer).Elem().Underlying().(*types.Array)
+					w.baseMem["G:"+globalName(g)] = AV{Kind: KSliceOf, Loc: loc, N: int(at.Len())}
+				}
+			}
+		}
+	}
+	return w.baseMem
+}
+
+// constAddrChain follows FieldAddr / IndexAddr (constant index) chains to a
+// root and renders the selector (".f", "[3]").
+func constAddrChain(v ssa.Value) (root ssa.Value, sel string, ok bool) {
+	switch x := v.(type) {
+	case *ssa.Global, *ssa.Alloc:
+		return v, "", true
+	case *ssa.FieldAddr:
+		r, s, ok := constAddrChain(x.X)
+		if !ok {
+			return nil, "", false
+		}
+		return r, s + "." + fieldName(x.X.Type(), x.Field), true
+	case *ssa.IndexAddr:
+		k, isK := constInt(x.Index)
+		if !isK {
+			return nil, "", false
+		}
+		if _, isPtr := x.X.Type().Underlying().(*types.Pointer); !isPtr {
+			return nil, "", false
+		}
+		r, s, ok := constAddrChain(x.X)
+		if !ok {
+			return nil, "", false
+		}
+		return r, s + fmt.Sprintf("[%d]", k), true
+	}
+	return nil, "", false
+}
+
+// readOnlyOutsideInit: outside its package initialiser the variable is only
+// loaded, or indexed / field-selected and then loaded.
+func (w *World) readOnlyOutsideInit(g *ssa.Global) bool {
+	var readOnly func(v ssa.Value) bool
+	readOnly = func(v ssa.Value) bool {
+		refs := v.Referrers()
+		if refs == nil {
+			return true
+		}
+		for _, r := range *refs {
+			switch x := r.(type) {
+			case *ssa.UnOp, *ssa.DebugRef:
+			case *ssa.IndexAddr:
+				if !readOnly(x) {
+					return false
+				}
+			case *ssa.FieldAddr:
+				if !readOnly(x) {
+					return false
+				}
+			default:
+				return false
+			}
+		}
+		return true
+	}
+	for fn := range w.AllFuncs {
+		if !w.InRepo(fn) || fn.Blocks == nil || fn.Synthetic == "package initializer" {
+			continue
+		}
+		for _, b := range fn.Blocks {
+			for _, in := range b.Instrs {
+				for _, op := range in.Operands(nil) {
+					if *op != ssa.Value(g) {
+						continue
+					}
+					switch x := in.(type) {
+					case *ssa.UnOp:
+					case *ssa.IndexAddr:
+						if !readOnly(x) {
+							return false
+						}
+					case *ssa.FieldAddr:
+						if !readOnly(x) {
+							return false
+						}
+					default:
+						return false
+					}
+				}
+			}
+		}
+	}
+	return true
 }
